@@ -24,12 +24,16 @@ CHECKS = {
                 tech="z3-term symbolic execution of chained fermionic tensordot over all routes vs graded oracle; CrossHair on label order and resolve_combined_oddpos", ref="§4 C04", engine="B+A"),
     "C05": dict(text=B + " Every input entry is a distinct variable; the oracle locates it through the result's own sub-index table; unfuse must restore every entry; insert and concat must agree. " + A, note=NOTE_B + " " + NOTE_A,
                 tech="z3-term symbolic execution of fuse/unfuse (both strategies, cache on/off) + CrossHair on calc_fuse_group_info/accum_for_split", ref="§4 C05", engine="B+A"),
+    "C07": dict(text=A + " calc_reshape_args with symbolic sizes / merge pattern / drop pattern against an independent shape simulator, forward and reverse. " + B + " Every merge/drop target and back; content preserved (each input variable exactly once up to sign); three call routes agree.", note=NOTE_A + " " + NOTE_B,
+                tech="CrossHair on calc_reshape_args + z3-term symbolic execution of reshape round trips", ref="§4 C07", engine="A+B"),
     "C08": dict(text=B + " Each operation through every call route; an operation may raise (all routes alike) but never return another value.", note=NOTE_B,
                 tech="z3-term symbolic execution of each op vs the op on the densified operand; path controller for abs/min/max/clip", ref="§4 C08", engine="B"),
     "C09": dict(text=B + " Relational inductive step: every operation on an array with an arbitrary pending-sign table and on its hand-synchronised twin (same variables) must give equal values; phase_sync is idempotent and value-preserving.", note=NOTE_B + " Raw-storage accessors are excluded (their meaning is the stored representation).",
                 tech="z3-term relational symbolic execution (lazy vs synchronised twin) of every fermionic op", ref="§4 C09", engine="B"),
     "C10": dict(text=B + " Complex entries as pairs of real terms; norm identities for conj/dagger in both operand orders and both option values; adjoint laws; doubled 2-3 tensor networks along sampled routes against the independent graded value of the ket network.", note=NOTE_B + " Involution is claimed for default options only; 3-tensor networks use real entries.",
                 tech="z3-term symbolic execution (complex) of conj/dagger/tensordot norm identities and doubled networks vs graded oracle", ref="§4 C10", engine="B"),
+    "C14": dict(text=B + " Operand snapshots (terms in order, tables, signs, labels) before/after every op; inplace=True equals out-of-place; out-of-place op followed by in-place follow-ups on the result leaves the operand unchanged.", note=NOTE_B,
+                tech="z3-term symbolic execution with operand snapshots; before==after obligations", ref="§4 C14", engine="B"),
     "C16": dict(text=B + " All constructors with every documented combination of omitted arguments must agree; arbitrary dense arrays (all entries distinct variables) under arbitrary labelings must round-trip to their projection.", note=NOTE_B,
                 tech="z3-term symbolic execution of constructors/from_dense/to_dense vs independent placement and projection oracle", ref="§4 C16", engine="B"),
     "C17": dict(text=A + " Group laws for all valid charges (unbounded integers for U1/U1U1); sector enumeration against a brute-force filter.", note=NOTE_A,
